@@ -126,7 +126,10 @@ func genC19(cs *CaseSet, rng *Rng, tier string, dir string) {
 					readAfterPost = true
 				}
 				lastWasPost = false
-			case r < 8:
+			case r < 8: // restart (every other one after a crash inside a save: its truncated temporary file is still there)
+				if rng.Bool() {
+					must(os.WriteFile(boardPath+".tmp", []byte("half a bo"), 0644))
+				}
 				fresh, err := mobius.NewFlatNews(boardPath)
 				must(err)
 				env.Srv.MessageBoard = fresh
